@@ -18,9 +18,17 @@ CHUNK = 1
 INPUTS_PER_ITEM = 14
 
 
+EXTRA_VARIANTS = {'quick': [], 'thorough': ['asan', 'plain']}
+
+
 def plan(ctx):
     n = ctx.n(700, 30000)
-    return [('fuzz', engine.stable_hash((ctx.seed, 'c03', i))) for i in range(n)]
+    items = [('miri', 0)]
+    items += [('fuzz', engine.stable_hash((ctx.seed, 'c03', i))) for i in range(n)]
+    if ctx.tier == 'thorough':
+        items += [('asan', engine.stable_hash((ctx.seed, 'c03a', i))) for i in range(ctx.n(0, 1500))]
+        items += [('valgrind', engine.stable_hash((ctx.seed, 'c03v', i))) for i in range(ctx.n(0, 40))]
+    return items
 
 
 def base_input(rng):
@@ -70,8 +78,78 @@ def base_input(rng):
     return 'submodule', ('\n'.join(lines) + '\n').encode()
 
 
+def run_miri():
+    """Miri on the only unsafe function (utils/round_char_boundary.rs), exhaustively over short strings."""
+    import subprocess
+    d = os.path.join(runner.VERIF, 'harness', 'miri_rcb')
+    env = dict(os.environ)
+    env['CARGO_NET_OFFLINE'] = 'true'
+    env.pop('RUSTFLAGS', None)
+    p = subprocess.run(['cargo', '+nightly', 'miri', 'run', '--offline'], cwd=d, env=env, stdout=subprocess.PIPE, stderr=subprocess.PIPE,
+                       timeout=900)
+    out = p.stdout.decode('utf-8', 'replace')
+    err = p.stderr.decode('utf-8', 'replace')
+    sets = {'input_kinds': ['miri:floor_char_boundary'], 'sanitizers': ['miri']}
+    if 'Undefined Behavior' in err or 'MISMATCH' in out:
+        return [violated('miri:floor_char_boundary', 'Miri: ' + (out + err)[-600:], sets=sets)]
+    m = __import__('re').search(r'miri_rcb ok strings=(\d+) calls=(\d+)', out)
+    if p.returncode != 0 or not m:
+        return [inconclusive('miri harness did not run: %s' % err[-300:], sets=sets)]
+    o = held(sig='miri:floor_char_boundary', nontrivial=True, counters={'miri_calls': int(m.group(2))}, sets=sets,
+             sample={'miri': 'floor_char_boundary over all strings of <= 4 code points from {1,2,3,4-byte} x all indices', 'calls': int(m.group(2))})
+    return [o]
+
+
+def run_sanitized(kind, seed):
+    """The same workload on the ASan build / under valgrind memcheck (plain release build)."""
+    rng = engine.item_rng(seed)
+    opts, cls = gen.hostile_options(rng)
+    args = gen.to_args(opts)
+    outs = []
+    n = 6 if kind == 'asan' else 2
+    for _ in range(n):
+        k, data = base_input(rng)
+        if rng.random() < 0.6:
+            data = corpus.mutate(rng, data)
+        if len(data) > 20000:
+            data = data[:20000]
+        sets = {'input_kinds': [k], 'sanitizers': [kind], 'option_classes': cls}
+        if kind == 'asan':
+            res = runner.run_delta(args, data, variant='asan', timeout=60,
+                                   env={'ASAN_OPTIONS': 'detect_leaks=0:halt_on_error=1:abort_on_error=0:exitcode=99'})
+            err = res.err.decode('utf-8', 'replace')
+            if 'AddressSanitizer' in err:
+                first = [l for l in err.splitlines() if 'ERROR: AddressSanitizer' in l]
+                outs.append(violated('asan:' + crashmod.normalise_message(first[0] if first else 'report'), 'AddressSanitizer report: ' + err[:600], run=res, sets=sets))
+                continue
+        else:
+            res = runner.run_delta(args, data, variant='plain', timeout=300, parent_argv=None,
+                                   wrapper=['valgrind', '-q', '--error-exitcode=97', '--leak-check=no', '--track-origins=no'])
+            err = res.err.decode('utf-8', 'replace')
+            if res.rc == 97 or '== Invalid' in err or 'uninitialised' in err:
+                outs.append(violated('valgrind:' + crashmod.normalise_message(err.strip().splitlines()[0] if err.strip() else 'report'),
+                                     'valgrind memcheck report: ' + err[:600], run=res, sets=sets))
+                continue
+        c = crashmod.classify(res)
+        if c is not None and c['kind'] != 'timeout':
+            from .. import findings
+            if findings.lookup(ID, c['signature']) is None and res.rc not in (0, 2):
+                outs.append(violated(c['signature'], 'crash under %s: %s' % (kind, c['detail']), run=res, sets=sets))
+                continue
+        if c is not None and c['kind'] == 'timeout':
+            outs.append(inconclusive('watchdog under %s' % kind, sets=sets))
+            continue
+        outs.append(held(sig='%s:%s' % (kind, __import__('hashlib').sha1(data + repr(args).encode()).hexdigest()[:12]), nontrivial=len(data) > 0,
+                         counters={kind + '_runs': 1}, sets=sets))
+    return outs
+
+
 def run_item(item):
-    _, seed = item
+    kind0, seed = item
+    if kind0 == 'miri':
+        return run_miri()
+    if kind0 in ('asan', 'valgrind'):
+        return run_sanitized(kind0, seed)
     rng = engine.item_rng(seed)
     opts, cls = gen.hostile_options(rng)
     args = gen.to_args(opts)
